@@ -93,6 +93,18 @@ def generate(rng, tier):
             at += 1
         sc["ops"][at:at] = [ln, {"op": "advance", "us": 2_000_000}, scen.cmd("create", "@R", *fm),
                             {"op": "advance", "us": 2_000_000}, scen.cmd("create", "@R", *fm, *(["-dr"] if rng.random() < 0.3 else []))]
+    if rng.random() < 0.05:
+        # a create that fails on its own while the manifest is being serialised (a file name XML 1.0 cannot carry), on a
+        # folder without history and on one with history: whatever the exit, nothing but manifests / chain may be left
+        from .. import gen as _g
+
+        bad = {"op": "write", "path": rng.choice(["bad\x01name.mov", "sub/ctl\x1f.bin", "zz\x0bv.dat"]), "c": _g.unique_content(rng), "fault": "add_file_with_control_char"}
+        tail = [bad, scen.cmd("create", "@R", "-h", "md5"), scen.cmd("info", "@R"), {"op": "remove", "path": bad["path"], "fault": "remove_file"},
+                scen.cmd("create", "@R", "-h", "md5")]
+        if rng.random() < 0.5:
+            sc["ops"] = tail + sc["ops"]
+        else:
+            sc["ops"] += tail
     if rng.random() < 0.15 and len(sc["ops"]) > 2:
         # an interrupted create somewhere in the middle leaves temporary files behind; later read-only commands
         # must leave them alone as well
@@ -210,6 +222,10 @@ def monitor(ctx, st):
                     continue  # the history folder received a new manifest
                 if os.path.join(rel, "ascmhl") in new_asc_dirs or (rel == "." and "ascmhl" in new_asc_dirs):
                     continue  # a directory that just received its first ascmhl sub-folder
+                made = {os.path.normpath(os.path.join(base_rel, os.path.dirname(r_))) for k_, r_ in touched_eff
+                        if k_ == "mkdir" and os.path.basename(r_) == "ascmhl"}
+                if os.path.normpath(rel) in made:
+                    continue  # ... or received it for the duration of a run that failed and took it away again
             what = "content" if pre[:3] != post[:3] else "mtime" if pre[3] != post[3] else "mode"
             is_manifest = os.path.basename(os.path.dirname(rel)) == "ascmhl"
             if is_manifest and not b.endswith(".mhl") and b != "ascmhl_chain.xml":
